@@ -44,4 +44,10 @@ META = {
   rule="real-time histories (64 threads in parallel, 8 steps of 0.5 s): add-cached with TTL {0,1,2,1000} and cache-flush, add-authoritative, remove, clear on three A records (x.local, y.x.local, z.local); queries at quarter offsets with the authoritative (exact/subdomain), cached and combined filters; every call is bracketed by Instant::now(); the model is evaluated under the two extreme readings of the measured intervals and a query is compared only when both agree (otherwise counted inconclusive); oracle: the property re-stated over the recorded history; distinct = distinct (history prefix, query, answer)",
   assumptions=STD + ["std::time::Instant is a monotone clock; the runtime clock is observed through sleeps with measured intervals"],
   timeout=dict(quick=1200, thorough=7200)),
+ "C09": dict(
+  rule="all 13 named rcodes x versions {0,1,3,127,255} x UDP sizes {0,512,1232,65535} x 3 (thorough 12) shapes (0..3 options of lengths 0,1,3,255,1000; 0..2 other additional records): build_bytes_vec compared with the model and checked clause by clause against RFC 6891 by an independent walker (exactly one OPT, root owner, TYPE 41, CLASS = size, TTL octets, option triples, ARCOUNT, header low nibble), then parsed back; plus independently encoded messages with the OPT record at every index of the additional section, in the library's TTL layout and in the RFC's, through Packet::parse; the known finding opt-ttl-byte-order covers exactly the TTL octet order",
+  assumptions=STD, timeout=dict(quick=1200, thorough=7200)),
+ "C10": dict(
+  rule="for each of the 39 typed variants other than OPT: 60 (thorough 2000) field tuples (boundary and random values, shared-suffix names, opaque tails of 0..1200 bytes); the library's serialisation compared byte for byte with an independent reference encoder written from the RFCs (harness) and with the Lean RFC schema encoder (spec.rdata), under the IANA code; the reference encoding parsed by the library and compared field by field; plus encodings breaking a structural rule (LOC version, SVCB key order, NSEC window order, inner length overruns) which must be rejected, and the ISDN-without-sub-address encoding of RFC 1183 (known finding)",
+  assumptions=STD, timeout=dict(quick=1200, thorough=7200)),
 }
